@@ -89,6 +89,11 @@ def cases(tier, seed):
         for g0, g1 in itertools.product((112, 118, 122, 126), repeat=2):
             for sfx in ("LEAX LB,PCR", "LEAX LA,PCR", "LEAY S4,PCR", "LDD M1,PCR", "LEAX ZNEW,PCR", "BRA S4"):
                 yield {"three": [list(r), g0, g1], "tr": "suffix.pcr", "arg": sfx}
+    # a program in two regions (code, then variables at the bottom of memory after a second ORG): both origins move by D
+    for d0 in (0, 1, 0x10):
+        for d in (1, 0x10, 0x20, 0x80, 0xE0):
+            if d0 + d + 8 <= 0x100:
+                yield {"tworeg": d0, "tr": "shift2", "arg": d}
     for name in ("readme", "xref", "pcr", "strings", "exprs"):
         for d in SHIFTS:
             yield {"big": name, "tr": "shift", "arg": d}
@@ -182,7 +187,53 @@ def decode_statements(out, lines):
     return res
 
 
+def tworeg_lines(d):
+    return [" ORG ${:04X}".format(0x0E00 + d), "START LDA COUNT", " INC COUNT", " LDX #TABLE", " STX POINTR", " LEAY START,PCR", " BNE START", " RTS",
+            " ORG ${:04X}".format(d), "COUNT RMB 1", "POINTR RMB 2", "TABLE RMB 4"]
+
+
+def check_tworeg(case):
+    d0, d = case["tworeg"], case["arg"]
+    cell = "shift2|{}>{}".format(d0, d0 + d)
+    res = {"nontrivial": False, "outcome": "skip", "state": "skip"}
+    a, b = common.assemble_confirm(tworeg_lines(d0)), common.assemble_confirm(tworeg_lines(d0 + d))
+    if a["kind"] != "OK" or b["kind"] != "OK":
+        if a["kind"] != b["kind"]:
+            res["viol"] = [{"component": "metamorphic", "cell": cell, "symptom": "relocated two-region program rejected", "expected": a["kind"],
+                            "observed": common.outcome_brief(b), "input": dict(case, lines=tworeg_lines(d0 + d))}]
+        res["state"] = "tworeg-" + a["kind"]
+        return res
+    res["nontrivial"] = True
+    viol = []
+    want = {k: v + d for k, v in a["symbols"].items()}
+    if b["symbols"] != want:
+        viol.append(("symbol value does not follow the origin", want, b["symbols"]))
+    elif [x + d for x in a["addrs"]] != b["addrs"]:
+        viol.append(("listing address does not follow the origin", [x + d for x in a["addrs"]][:12], b["addrs"][:12]))
+    elif len(a["image"]) != len(b["image"]):
+        viol.append(("layout changes with the origin", len(a["image"]), len(b["image"])))
+    else:
+        # the four absolute references (extended / immediate 16-bit operands) move by D, every other byte stays
+        ia, ib = bytearray(a["image"]), bytearray(b["image"])
+        for off in (1, 4, 7, 10):
+            va, vb = int.from_bytes(ia[off:off + 2], "big"), int.from_bytes(ib[off:off + 2], "big")
+            if (vb - va) & 0xFFFF != d:
+                viol.append(("absolute label reference does not move by D", "+{}".format(d), "{:04X} -> {:04X}".format(va, vb)))
+                break
+            ia[off:off + 2] = ib[off:off + 2] = b"\0\0"
+        if not viol and ia != ib:
+            viol.append(("byte changed that is not an absolute label reference", bytes(ia).hex(), bytes(ib).hex()))
+    res["state"] = "shift2:{}".format(zlib.crc32(a["image"]))
+    res["outcome"] = "violation" if viol else "ok"
+    if viol:
+        res["viol"] = [{"component": "metamorphic", "cell": cell, "symptom": v[0], "expected": str(v[1])[:160], "observed": str(v[2])[:160],
+                        "input": dict(case, lines=tworeg_lines(d0 + d))} for v in viol[:1]]
+    return res
+
+
 def check_case(case):
+    if "tworeg" in case:
+        return check_tworeg(case)
     lines0, labels = base_lines(case)
     tr, arg = case["tr"], case["arg"]
     cell = "{}|{}|{}".format(tr + ("@{}".format(case["org"]) if "org" in case else ""), arg if tr != "rename" else "map{}".format(arg),
@@ -322,7 +373,7 @@ def describe(tier):
                     ("every 3-statement sequence" if tier == "thorough" else "3-statement sequences over a 9-template slice") +
                     ", README example, cross-reference program, interacting-PCR program, and families of two and three mutually dependent label,PCR "
                     "statements (every reference pattern over 5-6 labels x gaps around the 8/16-bit limit) with PC-relative / branch statements appended; transformations: origin shifts {} from $2000 and shifts -1 +1 +$4F from origin $0001 (programs without absolute label references, wholly below $100, plus every 1-3 statement program over 12 relative-reference templates label / label+n / label-n where label-n may fall below 0); 4 label "
-                    "bijections onto names incl. SU XS PCX DPY a1 PCRL CCX; formats {}; every non-ORG statement template of C02 appended".format(SHIFTS, FORMATS),
+                    "a two-region program (code at $0E00+D, variables after a second ORG at 0+D / 1+D / $10+D) under 5 shifts; bijections onto names incl. SU XS PCX DPY a1 PCRL CCX; formats {}; every non-ORG statement template of C02 appended".format(SHIFTS, FORMATS),
         "bound": "one transformation per run (the menu is applied exhaustively to every base program)",
         "oracle": "shift: identical sizes, every byte identical except the 16-bit operand of statements that reference an own label absolutely, which "
                   "moves by exactly D; symbols +D (EQU unchanged); rename/format: identical image, addresses, symbol values (under the bijection); "
